@@ -110,7 +110,7 @@ def isogenies(ctx, lvl, exe, nideals):
             k = len(o)
             # predicted by the index model? (u or v of find_uv outside the table-derived range of fixed_degree_isogeny)
             fu = o[k - 1].split() if k >= 1 and one[k - 1].startswith("finduv") else None
-            pred = bool(fu and fu[0] == "1" and any(not (FDI[0] <= hx(x).bit_length() <= FDI[1]) for x in fu[1:3]))
+            pred = bool(fu and fu[0] == "1" and all(sint(x) > 0 for x in fu[1:3]) and any(not (FDI[0] <= sint(x).bit_length() <= FDI[1]) for x in fu[1:3]))
             ctx.case("L%d:ideal:%dbits:crash" % (lvl, bits))
             rep = dict(level=lvl, ops=one[:k + 1], last_output=(o[k - 1][:300] if k else ""), stderr=err[-800:], rc=rc,
                        how="drv_id2iso level %d: feed the ops (deterministic DRBG); theorem L1_fdi_index_negation predicts the out-of-range strategy row" % lvl)
@@ -121,14 +121,14 @@ def isogenies(ctx, lvl, exe, nideals):
                 ctx.violation("c13:L%d:ideal-to-isogeny-crash" % lvl, "ideal-to-isogeny translation crashed on an ideal of odd norm", rep)
             continue
         ops += one[1:]; out += o[1:]
-        plan.append(bits)
+        plan.append((bits, one))
     w0 = (hx(out[1].split()[0]), hx(out[1].split()[1]))
     N2f = 1 << fmax
     if not (F.pow(w0, N2f) == (1, 0) and F.pow(w0, N2f // 2) == (p - 1, 0)):
         ctx.violation("c13:L%d:reference-pairing" % lvl, "e(P0,Q0) of BASIS_EVEN does not have exact order 2^f", dict(w0=out[1]))
     idx = 2
-    for bits in plan:
-        normI = hx(out[idx]); rep0 = dict(level=lvl, ops=ops[:idx + 6], how="drv_id2iso level %d: feed the ops (deterministic DRBG)" % lvl)
+    for bits, one in plan:
+        normI = hx(out[idx]); rep0 = dict(level=lvl, ops=one, how="drv_id2iso level %d: feed the ops (deterministic DRBG)" % lvl)
         js = []
         for which, (o_fuv, o_eval, nm) in enumerate(((out[idx + 1], out[idx + 2], normI), (out[idx + 4], out[idx + 5], None))):
             if which == 1:
@@ -141,11 +141,11 @@ def isogenies(ctx, lvl, exe, nideals):
             parts = o_fuv.split(" | ")
             ws = parts[0].split()
             if ws[0] == "1":
-                u, v, d1, d2 = (hx(x) for x in ws[1:5])
+                u, v, d1, d2 = (sint(x) for x in ws[1:5])
                 tot = u * d1 + v * d2
                 okpow = tot % N2f == 0 and (tot // N2f) & ((tot // N2f) - 1) == 0 and tot // N2f >= 1
-                n1 = ws[5] != "x" and hx(ws[5]) == d1
-                n2 = ws[6] != "x" and hx(ws[6]) == d2
+                n1 = ws[5] != "x" and sint(ws[5]) == d1
+                n2 = ws[6] != "x" and sint(ws[6]) == d2
                 # independent recomputation of the norms from the raw coordinates: (x0²+x1²+p(x2²+x3²))/den² = d·N(I)
                 ind = []
                 for part, d in ((parts[1], d1), (parts[2], d2)):
@@ -162,6 +162,9 @@ def isogenies(ctx, lvl, exe, nideals):
                 ctx.coverage["eval_failures"] = ctx.coverage.get("eval_failures", 0) + 1
                 continue
             A, C = (hx(h[1]), hx(h[2])), (hx(h[3]), hx(h[4]))
+            if F.is_zero(C) or F.is_zero(F.sub(F.sqr(F.div(A, C)), (4, 0))):
+                ctx.violation("c13:L%d:image-basis:singular-codomain" % lvl, "dim2id2iso_arbitrary_isogeny_evaluation returned a singular / undefined codomain curve", rep)
+                continue
             E = Mont(F, F.div(A, C))
             b = ev[1].split()
             P, Q, D = pt(b[0:2]), pt(b[2:4]), pt(b[4:6])
